@@ -70,6 +70,9 @@ func c20Spec(name, id string) v1alpha1.DecoratorControllerSpec {
 	case "service-path":
 		p := "/" + name + "/service-path/sync"
 		wh.URL, wh.Path, wh.Service = nil, &p, &v1alpha1.ServiceReference{Name: "hook", Namespace: "invalid"}
+	case "with-customize":
+		// (not part of the BFS alphabet: used by the in-flight unit) a customize hook that selects related objects
+		spec.Hooks.Customize = &v1alpha1.Hook{Webhook: &v1alpha1.Webhook{URL: world.URL("/" + name + "/with-customize/customize"), Timeout: &metav1.Duration{Duration: time.Hour}}}
 	case "INVALID-unknown-parent":
 		spec.Resources[0].Resource = "nopes"
 	case "INVALID-unknown-child":
@@ -565,6 +568,11 @@ func TestVerifC20Workers(t *testing.T) {
 		}
 	}
 	rec(nil)
+	if i, _ := mc.Shard(); i == 0 {
+		for _, last := range []string{"delete:x", "update:x:v2", "update:x:INVALID-no-hooks"} {
+			c20InFlightCustomize(r, last)
+		}
+	}
 	r.States = r.Evaluations
 }
 
@@ -699,6 +707,90 @@ func c20InFlight(r *mc.Report, hist []string, specs []string) {
 		r.Violate("C20:workers:hook-call-after-stop", fmt.Sprintf("in-flight %v: %d hook calls on the stopped instance's URL after the reconciler returned", hist, n-callsAtReturn), kit.M{"events": hist, "in_flight": true})
 	}
 	r.Outcome("in-flight:" + verdict)
+	x.teardown()
+	waitCensus(0)
+}
+
+// c20InFlightCustomize: the instance is stopped while its first sync is still waiting for the customize hook.
+// Whatever that sync subscribes to afterwards (the informers of the related resources the answer names) must
+// be released by the time the reconciler is done with the event: no subscription may outlive its instance.
+func c20InFlightCustomize(r *mc.Report, last string) {
+	hist := []string{"create:x:with-customize", last}
+	r.EvalDistinct(true)
+	x := newC20World()
+	x.mc.numWorkers = 2
+	entered, release := make(chan struct{}, 16), make(chan struct{})
+	var blocking atomic.Bool
+	blocking.Store(true)
+	for _, s := range append([]string{"with-customize"}, c20Specs...) {
+		x.Hooks.Handle(c20HookPath("x", s), world.JSON(func(req map[string]interface{}) interface{} { return kit.M{"attachments": kit.L{}} }))
+	}
+	x.Hooks.Handle("/x/with-customize/customize", world.JSON(func(req map[string]interface{}) interface{} {
+		if blocking.Load() {
+			entered <- struct{}{}
+			<-release
+		}
+		return kit.M{"relatedResources": kit.L{kit.M{"apiVersion": "v1", "resource": "others", "labelSelector": kit.M{}}}}
+	}))
+	x.hist = append(x.hist, hist[0])
+	x.applyRaw(hist[0])
+	if !waitCensus(2) {
+		c20LivenessFailures++
+		r.Capped(fmt.Sprintf("in-flight customize %v: the instance never reached 2 workers", hist))
+		blocking.Store(false)
+		close(release)
+		x.teardown()
+		waitCensus(0)
+		return
+	}
+	// the parent p is delivered to the instance's informer: its first sync begins
+	x.DeliverAll()
+	select {
+	case <-entered:
+	case <-time.After(time.Minute):
+		r.Capped(fmt.Sprintf("in-flight customize %v: the worker never reached the customize hook (harness liveness wait)", hist))
+		blocking.Store(false)
+		close(release)
+		x.teardown()
+		waitCensus(0)
+		return
+	}
+	done := make(chan struct{})
+	go func() {
+		defer close(done)
+		x.hist = append(x.hist, hist[1])
+		x.applyRaw(hist[1])
+	}()
+	limit := time.Now().Add(5 * time.Minute)
+	for !stopBlockedOnWorkers() {
+		stop := false
+		select {
+		case <-done:
+			stop = true
+		default:
+		}
+		if stop || time.Now().After(limit) {
+			break
+		}
+		time.Sleep(100 * time.Microsecond)
+	}
+	blocking.Store(false)
+	close(release)
+	<-done
+	want := 0
+	wantRefs := map[string]int{}
+	if id := x.object["x"]; id != "" && c20Valid(id) {
+		want = 2
+		sp := c20Spec("x", id)
+		_ = sp
+	}
+	waitCensus(want)
+	// the new instance (if any) may be in its own first sync; the old one's related subscription is "others"
+	if n := x.Factory.VerifRefCounts()["others.v1"]; n != 0 {
+		r.Violate("C20:workers:subscription-outlives-instance", fmt.Sprintf("%v: the stopped instance still holds %d subscription(s) to the related resource others.v1 that its last sync opened after Stop had begun (factory subscriptions %v)", hist, n, sortedCounts(x.Factory.VerifRefCounts())), kit.M{"events": hist, "in_flight": "customize"})
+	}
+	_ = wantRefs
+	r.Outcome("in-flight-customize:" + strings.Split(last, ":")[0])
 	x.teardown()
 	waitCensus(0)
 }
